@@ -155,6 +155,7 @@ type Client struct {
 	ID     int    `json:"id"`
 	Config int    `json:"config"` // index of the parsed Config this client uses
 	Format string `json:"format"`
+	Kind   string `json:"kind"`             // package | prepare (Get + WithDefaults + PrepareForPackager only, then parked)
 	Name   bool   `json:"name,omitempty"`   // ask for the conventional file name first
 	Signer bool   `json:"signer,omitempty"` // own simulated signer (deb/rpm/apk)
 }
